@@ -203,6 +203,8 @@ pub struct Views {
     pub into: Option<Val>,
     pub display: Option<String>,
     pub inner_display: Option<String>,
+    /// (format spec, newtype formatted, inner value formatted) for specs carrying width/fill/precision/sign options
+    pub display_fmt: Vec<(String, String, String)>,
     pub clone_inner: Option<Val>,
     pub clone_eq: Option<bool>,
     pub iter_val: Option<Vec<Val>>,
